@@ -17,7 +17,16 @@ UNITS = {
     'force': {'eV/angstrom': E_CHARGE / 1e-10, 'N': 1.0, 'nN': 1e-9},
     'mass': {'amu': AMU, 'kg': 1.0, 'g': 1e-3},
     'velocity': {'angstrom/ps': 1e2, 'm/s': 1.0, 'nm/ps': 1e3},
+    # compound expressions whose value depends on evaluating * and / left to right ('a/b*c' is (a/b)*c)
+    'impulse': {'eV/angstrom*ps': E_CHARGE / 1e-10 * 1e-12, 'N*s': 1.0, 'kg*m/s': 1.0, 'g*cm/s': 1e-5, 'eV*ps/angstrom': E_CHARGE * 1e-12 / 1e-10},
+    'stiffness': {'eV/angstrom/angstrom': E_CHARGE / 1e-20, 'N/m': 1.0, 'J/m^2': 1.0, 'kg/s/s': 1.0, 'eV/(angstrom*angstrom)': E_CHARGE / 1e-20,
+                  'GPa*nm': 1.0, 'J/m/m': 1.0},
 }
+# SI value of the working unit of each dimension under atomman's default configuration (angstrom, amu, eV, e);
+# the working time unit follows from energy = mass * length^2 / time^2
+T_DEFAULT = 1e-10 * (AMU / E_CHARGE) ** 0.5
+DEFAULT_WORK_SI = {'length': 1e-10, 'pressure': E_CHARGE / 1e-30, 'energy': E_CHARGE, 'charge': E_CHARGE, 'force': E_CHARGE / 1e-10,
+                   'mass': AMU, 'velocity': 1e-10 / T_DEFAULT, 'impulse': E_CHARGE / 1e-10 * T_DEFAULT, 'stiffness': E_CHARGE / 1e-20}
 RTOL = 5e-9     # slack for CODATA-version differences of amu / derived constants
 
 
@@ -27,6 +36,11 @@ def names(dim):
 
 def si(dim, unit):
     return UNITS[dim][unit]
+
+
+def from_default_working(value, dim, unit_to):
+    """value in the working units of the default configuration -> the same quantity expressed in unit_to."""
+    return value * (DEFAULT_WORK_SI[dim] / UNITS[dim][unit_to])
 
 
 def convert(value, dim, unit_from, unit_to):
